@@ -207,6 +207,13 @@ def handle (d : DState) : List String → DState × String
       | .error e => (d, errStr e)
       | .ok l => (d, "+".intercalate (l.map fun p =>
           p.1 ++ "=" ++ (match p.2 with | none => "n" | some k => toString k)))
+  | ["foreign", names] =>
+    -- blocks that are NOT in this circuit but have got output connections from it
+    match (splitField names ",").mapM parseName with
+    | none => (d, "bad-op")
+    | some ns =>
+      let touched := ns.filter fun n => (d.c.kind n).isNone && !(d.c.oconn n).isEmpty
+      (d, if touched.isEmpty then "-" else ",".intercalate (touched.map fun n => "." ++ n))
   | ["dest", i] =>
     match i.toNat? with
     | none => (d, "bad-op")
